@@ -961,3 +961,68 @@ func aValidatorJudgesTheStringItWasGiven(c *core.Ctx) {
 	}
 	c.Stat("string_validators", n)
 }
+
+// ---------------------------------------------------------------------------
+// anInfinityIsOrderedByItsSign (C15): a Compare that treats the infinities
+// apart looks at which one it has.  math.IsInf(x, 0) is true for both; a
+// branch under it that answers "less" (or "greater") outright puts every
+// number below minus infinity as well, while the other operand's Compare says
+// the opposite: a < b and b < a hold together and sorting depends on the
+// arrangement.
+func anInfinityIsOrderedByItsSign(c *core.Ctx) {
+	p := c.P
+	n, sites := 0, 0
+	for _, fn := range repoFns(p, "object") {
+		if fn.Name() != "Compare" || fn.Signature.Recv() == nil {
+			continue
+		}
+		n++
+		for _, b := range fn.Blocks {
+			for _, in := range b.Instrs {
+				call, ok := in.(*ssa.Call)
+				if !ok {
+					continue
+				}
+				cal := call.Call.StaticCallee()
+				if cal == nil || cal.Pkg == nil || cal.Pkg.Pkg.Path() != "math" || cal.Name() != "IsInf" || len(call.Call.Args) != 2 {
+					continue
+				}
+				k, isConst := call.Call.Args[1].(*ssa.Const)
+				if !isConst || k.Int64() != 0 {
+					continue // asks for one of the two
+				}
+				sites++
+				// the blocks that run when the answer is (or may be, through ||) yes
+				bad := ""
+				var visit func(v ssa.Value, depth int)
+				visit = func(v ssa.Value, depth int) {
+					if v.Referrers() == nil || depth > 3 {
+						return
+					}
+					for _, r := range *v.Referrers() {
+						switch x := r.(type) {
+						case *ssa.If:
+							yes := x.Block().Succs[0]
+							for _, yin := range yes.Instrs {
+								if ret, ok := yin.(*ssa.Return); ok && len(ret.Results) > 0 {
+									if kc, ok := ret.Results[0].(*ssa.Const); ok && kc.Value != nil && kc.Int64() != 0 {
+										bad = p.Pos(ret.Pos())
+									}
+								}
+							}
+						case *ssa.Phi:
+							visit(x, depth+1)
+						case *ssa.BinOp:
+							visit(x, depth+1)
+						}
+					}
+				}
+				visit(call, 0)
+				c.Check(bad == "", core.SSAName(fn)+"|IsInf(x, 0)|does-not-decide-the-order|"+itoa(sites), p.Pos(call.Pos()),
+					core.SSAName(fn)+" asks whether the other operand is an infinity of either sign"+ife(bad == "", " and does not answer the order on that alone", " and answers "+"the order outright (the return at "+bad+"): minus infinity is ordered like plus infinity, and the two operands' Compare methods contradict each other"))
+			}
+		}
+	}
+	c.Pass("object|compare-and-infinities", "", sprintf("%d Compare methods examined, %d ask math.IsInf(x, 0)", n, sites))
+	c.Stat("compare_methods", n)
+}
